@@ -46,6 +46,8 @@ pub fn check_isolation(case: &C11Case, tr: &Trace) -> Result<Vec<&'static str>, 
     let ids: Vec<TransactionID> = (0..sc.puts.len()).map(|k| sc.put_id(k)).collect();
     for i in 0..ids.len() {
         match tr.put_ids[i] {
+            // (a puppet sender has no daemon that could answer)
+            None if !sc.entities[sc.puts[i].from].present => {}
             None => return Err(fail(tr, "put-not-answered", format!("Put #{i} never got a transaction id"))),
             Some(id) => {
                 for j in 0..i {
@@ -185,7 +187,8 @@ impl Part for C11Part {
             .class_if(sc.faults.is_empty(), "loss-free")
             .class_if(!sc.faults.is_empty(), "lossy")
             .class_if(sc.puts.len() >= 8, ">=8-puts")
-            .class_if(!case.replayed_puts.is_empty(), "replay-of-ended-transaction");
+            .class_if(!case.replayed_puts.is_empty(), "replay-of-ended-transaction")
+            .class_if(!sc.entities[0].present && strays_routed > 100, "burst>100-datagrams");
         if let Some(f) = common_failures(sc, &tr) {
             return out.failed(f.key, f.msg);
         }
@@ -388,6 +391,73 @@ pub fn build(seed: u64, lossy: bool, with_strays: bool, with_replay: bool, bound
     C11Case { sc, stray_ids, replayed_puts, bounded_loss }
 }
 
+/// A burst: a puppet sender hands 120..320 datagrams of one (or two interleaved) unacknowledged transfers to the real daemon in
+/// one instant while the receive transaction is polled late (hook H5), so that its mailbox runs full. A full mailbox is
+/// back-pressure, not the end of the transaction: nothing may be dropped, duplicated into a second transaction or mis-routed.
+pub fn build_burst(seed: u64) -> C11Case {
+    let mut rng = Prng::new(seed);
+    let idw = *rng.pick(&[1u8, 2, 4]);
+    let seqw = *rng.pick(&[2u8, 4]);
+    let seg = 16u16;
+    let mk_cfg = |rng: &mut Prng| CfgSpec { seg, max_count: 3, ti: 6, ta: 2, tn: 2, crc: rng.chance(1, 3), closure: false, null_checksum: false, nak: nak_variants()[0].clone(), handlers: vec![] };
+    let entities = vec![
+        EntitySpec { id: 1, id_width: idw, present: false, cfg: mk_cfg(&mut rng), start_seq: rng.below(200), seq_width: seqw },
+        EntitySpec { id: 2, id_width: idw, present: true, cfg: mk_cfg(&mut rng), start_seq: rng.below(200), seq_width: seqw },
+    ];
+    let mut sc = Scenario {
+        seed: rng.next(),
+        tau_ms: 0,
+        lat_ms: 0,
+        entities,
+        puts: vec![],
+        faults: vec![],
+        blackouts: vec![],
+        actions: vec![],
+        horizon_ms: 30_000,
+        preload: vec![],
+        health_check: false,
+        stop_when_quiet: true,
+        yields: *rng.pick(&[3u8, 4, 4]),
+    };
+    let n_puts = 1 + rng.below(2) as usize;
+    for k in 0..n_puts {
+        let nsegs = 120 + rng.below(200) as u32;
+        sc.puts.push(PutSpec {
+            at_ms: 0,
+            from: 0,
+            to: 1,
+            unack: true,
+            file: Some(FileSpec { size: nsegs * seg as u32 - rng.below(seg as u64) as u32, class: ContentClass::Tag { tag: 0x40 + k as u8 }, seed: k as u64 }),
+            src_name: format!("src_{k}.bin"),
+            dst_name: format!("in_from_0/dst_{k}.bin"),
+            requests: vec![],
+            messages: vec![],
+        });
+    }
+    // all datagrams of all puts in one instant, the puts interleaved
+    let mut streams: Vec<Vec<Vec<u8>>> = vec![];
+    for k in 0..n_puts {
+        let pup = Pup::for_put(&sc, k);
+        let content = sc.puts[k].file.as_ref().unwrap().bytes();
+        let mut v = vec![pup.metadata(content.len() as u64, &sc.puts[k].src_name, &sc.puts[k].dst_name, false, false, vec![])];
+        for (i, chunk) in content.chunks(seg as usize).enumerate() {
+            v.push(pup.data((i * seg as usize) as u64, chunk));
+        }
+        v.push(pup.eof(Condition::NoError, crate::puppet::modular(&content), content.len() as u64));
+        streams.push(v);
+    }
+    let t = 10u64;
+    let longest = streams.iter().map(|v| v.len()).max().unwrap_or(0);
+    for i in 0..longest {
+        for v in &streams {
+            if let Some(bytes) = v.get(i) {
+                sc.actions.push(Action { trigger: Trigger::AtMs(t), entity: 0, kind: ActionKind::Inject { to: 1, as_from: 0, bytes: bytes.clone() } });
+            }
+        }
+    }
+    C11Case { sc, stray_ids: vec![], replayed_puts: vec![], bounded_loss: false }
+}
+
 fn rng_u(seed: u64, j: u64) -> u64 {
     mix(seed ^ 0x5717, j)
 }
@@ -399,7 +469,7 @@ pub fn run(ctx: &mut Ctx) {
     ctx.rule = "seeded generation: 2-3 real daemons (id widths 1/2/4/8, different configurations per daemon), 2..8 (one in four: up to 24) Puts issued within 30 ms in any direction (in half of the scenarios all daemons number their transactions from the same start value), acknowledged and unacknowledged, sizes \
 {0,1,seg,3seg+5,6seg}, contents tagged per transaction, destinations in per-sender directories; six families: loss-free, loss-free + strays, one lost datagram per directed link (acknowledged Puts must still succeed) with and without strays, lossy (per-datagram loss 1..20 %, delays, duplicates on every link) + strays, and \
 loss-free + strays + replay of a random subset of the PDUs of Put #0 after it has ended, plus reflections of its PDUs back to the entity that emitted them around the end of that transaction. Strays (1..12 per scenario, plus up to 3 responses that carry the sequence number of a live send transaction but another source entity): ACK/NAK/Finished for a sender that does not exist, PDUs naming entity 77 (no transport), Metadata / FileData / EOF / \
-Prompt / ACK(Finished) with fresh ids from a known peer. Non-trivial = two transactions overlapped in time on one daemon, or at least one stray PDU was routed; distinct by scenario."
+Prompt / ACK(Finished) with fresh ids from a known peer. A seventh family hands 120..320 datagrams of one or two unacknowledged transfers (puppet sender) to the daemon in one instant while the receive transactions are polled late (H5), so that a transaction's mailbox runs full. Non-trivial = two transactions overlapped in time on one daemon, or at least one stray PDU was routed, or a burst of more than 100 datagrams was handed over; distinct by scenario."
         .into();
     ctx.assumptions = vec![
         "stray ids are disjoint from live transactions; stray Metadata names destinations under stray/; offsets < 1000".into(),
@@ -421,5 +491,8 @@ Prompt / ACK(Finished) with fresh ids from a known peer. Non-trivial = two trans
         let n = ctx.tier.pick(nq, nt);
         ctx.drive_indexed(&part, n, false, |i| build(mix(seed ^ hash_str(name), i), lossy, strays, replay, bounded));
     }
+    let n = ctx.tier.pick(400u64, 6_000);
+    ctx.section = "burst-into-one-mailbox".into();
+    ctx.drive_indexed(&part, n, false, |i| build_burst(mix(seed ^ 0xB0257, i)));
     ctx.section.clear();
 }
